@@ -601,8 +601,12 @@ namespace DFS
       return std::vector<int>{2, 1};
   }
 
-  std::vector<DFS::ImageFileFormat> make_candidate_list(const std::string& name)
+  std::vector<DFS::ImageFileFormat> make_candidate_list(const std::string& file_name)
   {
+    // The hints come from the extension of the image file; for a
+    // compressed image (foo.ssd.gz) that is the extension before .gz.
+    std::string name(file_name);
+    DFS::stringutil::remove_suffix(&name, ".gz");
     std::optional<DFS::Encoding> encoding_hint;
     std::optional<bool> interleaving_hint;
     std::optional<int> sides_hint;
